@@ -242,6 +242,7 @@ type svcRec struct {
 	GB    []int  `json:"gb"`  // packed into a zero-filled buffer of the reported size (+ guard)
 	FF    []int  `json:"ff"`  // packed into a 0xFF-filled buffer
 	RND   []int  `json:"rnd"` // packed into a buffer of seeded random bytes
+	BIG   []int  `json:"big"` // first Size bytes after packing into a slice LONGER than the reported size
 	Guard int    `json:"guard"`
 	Panic int    `json:"panic"`
 	PMsg  string `json:"pmsg"`
@@ -270,7 +271,7 @@ func packInto(srv knxnet.ServicePackable, size int, fill func(i int) byte) ([]by
 }
 
 func logSvc(o *Out, v SV, rng *rand.Rand) {
-	r := svcRec{K: "svc", V: v, GB: []int{}, FF: []int{}, RND: []int{}, GD: zeroSV(-1), GD2: zeroSV(-1), Guard: 1}
+	r := svcRec{K: "svc", V: v, GB: []int{}, FF: []int{}, RND: []int{}, BIG: []int{}, GD: zeroSV(-1), GD2: zeroSV(-1), Guard: 1}
 	seedBytes := make([]byte, 4096)
 	rng.Read(seedBytes)
 	p, msg := Guarded(func() {
@@ -279,7 +280,19 @@ func logSvc(o *Out, v SV, rng *rand.Rand) {
 		gb, g1 := packInto(srv, r.Size, func(int) byte { return 0 })
 		ff, g2 := packInto(srv, r.Size, func(int) byte { return 0xff })
 		rn, g3 := packInto(srv, r.Size, func(i int) byte { return seedBytes[i%len(seedBytes)] })
-		r.GB, r.FF, r.RND, r.Guard = Ints(gb), Ints(ff), Ints(rn), B2i(g1 && g2 && g3)
+		big := make([]byte, r.Size+guardLen)
+		for i := range big {
+			big[i] = 0x5a
+		}
+		knxnet.Pack(big, srv)
+		g4 := true
+		for i := r.Size; i < len(big); i++ {
+			if big[i] != 0x5a {
+				g4 = false
+			}
+		}
+		r.BIG = Ints(big[:r.Size])
+		r.GB, r.FF, r.RND, r.Guard = Ints(gb), Ints(ff), Ints(rn), B2i(g1 && g2 && g3 && g4)
 		var out knxnet.Service
 		n, err := knxnet.Unpack(gb, &out)
 		r.GN = int(n)
@@ -419,9 +432,9 @@ func TestC02(t *testing.T) {
 	}
 	defer o.Close()
 	rng := Rng()
-	n := 60
+	n := 240
 	if Thorough() {
-		n = 1500
+		n = 3000
 	}
 	for _, svc := range svcIDs {
 		kinds := 1
@@ -430,11 +443,61 @@ func TestC02(t *testing.T) {
 		}
 		for k := 0; k < kinds; k++ {
 			for i := 0; i < n; i++ {
-				logSvc(o, genSV(rng, svc, k, false), rng)
+				v := genSV(rng, svc, k, false)
+				logSvc(o, v, rng)
+				// accepted but non-canonical byte strings of the same type: trailing bytes (e.g. an endpoint
+				// after a refused connect response), with the header's total length adjusted
+				if i%4 == 0 {
+					if pb, _ := Guarded(func() {
+						b := knxnet.AllocAndPack(v.service())
+						for _, extra := range [][]byte{{8, 1, 10, 0, 0, 7, 0x0e, 0x57}, {0}, {4, 4, 2, 0}, bytesOf(rbytes(rng, 1+rng.Intn(12)))} {
+							m := append(append([]byte{}, b...), extra...)
+							m[4], m[5] = byte(len(m)>>8), byte(len(m))
+							logStable(o, m)
+						}
+					}); pb {
+						continue
+					}
+				}
 			}
 		}
 	}
 	t.Logf("%d records", o.n)
+}
+
+type stabRec struct {
+	K    string `json:"k"`
+	B    []int  `json:"b"`
+	OK1  int    `json:"ok1"`
+	V1   SV     `json:"v1"`
+	OK2  int    `json:"ok2"`
+	V2   SV     `json:"v2"`
+	Pan  int    `json:"panic"`
+}
+
+// logStable decodes an arbitrary (possibly non-canonical) byte string; if it is accepted as an encodable
+// type, the result is re-encoded and decoded again.
+func logStable(o *Out, b []byte) {
+	r := stabRec{K: "stab", B: Ints(b), V1: zeroSV(-1), V2: zeroSV(-1)}
+	p, _ := Guarded(func() {
+		var s1 knxnet.Service
+		if _, err := knxnet.Unpack(b, &s1); err != nil {
+			return
+		}
+		v1 := project(s1)
+		sp := v1.service()
+		if sp == nil {
+			return // not an encodable type
+		}
+		r.OK1, r.V1 = 1, v1
+		b2 := knxnet.AllocAndPack(sp)
+		var s2 knxnet.Service
+		if _, err := knxnet.Unpack(b2, &s2); err == nil {
+			r.OK2, r.V2 = 1, project(s2)
+		}
+	})
+	r.Pan = B2i(p)
+	o.Rec(r)
 }
 
 // TestC15 additionally feeds oversize variable parts.
@@ -445,9 +508,9 @@ func TestC15(t *testing.T) {
 	}
 	defer o.Close()
 	rng := Rng()
-	n := 40
+	n := 160
 	if Thorough() {
-		n = 800
+		n = 2000
 	}
 	for _, svc := range svcIDs {
 		kinds := 1
